@@ -100,5 +100,46 @@ pub fn corr_c08(seed: u64, n: u64) {
         stats.count(if len < 2 { "n<2" } else if len < 200 { "n<200" } else { "n>=200" });
         println!("{}", line);
     }
+    // the WHOLE fitter against the generated model, bit for bit: fit_curve on the search generator's inputs (all its sources, noise,
+    // repeated / identical points, 0..3 points, block boundaries) ...
+    let mut rng2 = Rng(seed ^ 0xF17C08);
+    for it in 0..(n / 4 + 40) {
+        let mut input = crate::c08::gen_input(&mut rng2);
+        if input.pts.len() > 450 && it % 8 != 0 { input.pts.truncate(3 + (it as usize * 7) % 60); }
+        let max_error = match it % 5 { 0 => 0.0, 1 => -1.0, _ => if rng2.b() { rng2.r(0.05, 2.0) } else { 10f64.powf(rng2.r(-3.0, 0.3)) } };
+        let pts = input.pts.clone();
+        let fit = fit_curve::<Curve<Coord2>>(&pts, max_error);
+        let mut line = format!("C08 fit R {} #{}", hx(max_error), pts.len());
+        for p in &pts { line += &format!(" {} {}", hx(p.0), hx(p.1)); }
+        match &fit {
+            None => line += " | #0 #0",
+            Some(cs) => {
+                line += &format!(" | #1 #{}", cs.len());
+                for c in cs { let (c1, c2) = c.control_points(); for q in [c.start_point(), c1, c2, c.end_point()] { line += &format!(" {} {}", hx(q.0), hx(q.1)); } }
+            }
+        }
+        stats.case(&format!("fit {} {} {}", input.source, input.class, pts.len()), pts.len() >= 3);
+        stats.count(&format!("fit.class.{}", input.class));
+        stats.count(&format!("fit.curves.{}", match fit.as_ref().map(|f| f.len()) { None => "none", Some(1) => "1", Some(2..=4) => "2_to_4", Some(_) => "ge_5" }));
+        println!("{}", line);
+    }
+    // ... and fit_curve_cubic with tangents of the caller's choice (not unit length, not related to the points)
+    for it in 0..(n / 8 + 20) {
+        let mut input = crate::c08::gen_input(&mut rng2);
+        if input.pts.len() < 2 { continue; }
+        input.pts.truncate(2 + (it as usize * 5) % 40);
+        let pts = input.pts.clone();
+        let st = Coord2(rng2.r(-2.0, 2.0), rng2.r(-2.0, 2.0));
+        let et = if it % 4 == 0 { Coord2(0.0, 0.0) } else { Coord2(rng2.r(-2.0, 2.0), rng2.r(-2.0, 2.0)) };
+        let max_error = 10f64.powf(rng2.r(-2.0, 0.3));
+        let cs = fit_curve_cubic::<Curve<Coord2>>(&pts, &st, &et, max_error);
+        let mut line = format!("C08 cubic R {} {} {} {} {} #{}", hx(max_error), hx(st.0), hx(st.1), hx(et.0), hx(et.1), pts.len());
+        for p in &pts { line += &format!(" {} {}", hx(p.0), hx(p.1)); }
+        line += &format!(" | #{}", cs.len());
+        for c in &cs { let (c1, c2) = c.control_points(); for q in [c.start_point(), c1, c2, c.end_point()] { line += &format!(" {} {}", hx(q.0), hx(q.1)); } }
+        stats.case(&format!("cubic {} {}", input.class, pts.len()), pts.len() >= 3);
+        stats.count(&format!("cubic.curves.{}", match cs.len() { 1 => "1", 2..=4 => "2_to_4", _ => "ge_5" }));
+        println!("{}", line);
+    }
     stats.print("C08", "corr");
 }
